@@ -12,6 +12,7 @@ step at which it was sent; `q.closedAt` is the step at which the channels were c
 -/
 import SerfProofs.Lemmas.QueryRoute
 import SerfModel.Gen.QueryLocks
+import SerfModel.Gen.ClockUse
 namespace SerfProofs.C07
 open SerfModel SerfModel.QueryRoute SerfProofs.QueryRoute
 
@@ -21,6 +22,13 @@ deferred Unlock, `if r.closed` inside, send inside, no call that re-locks), `Clo
 and closes both channels under the same lock, `Finished` reads under it.  The atomic actions of the model
 are the code's critical sections only under these shapes; every theorem below assumes `sh.good`. -/
 theorem C07_lock_shapes : Gen.QueryLocks.shapes.good = true := by decide
+
+/-- also regenerated and part of `good`: `registerQueryResponse` stores the object under its Lamport time while
+holding `queryLock`, the timer closure (fired after `timeout`) holds `queryLock` and does `delete` + `resp.Close()`
+UNCONDITIONALLY; `handleQueryResponse` does lookup (under RLock) → id check → `Finished()` → duplicate check
+on `acks`/`responses` → `sendAck`/`sendResponse`, the stages of the in-flight reply. -/
+theorem C07_timer_and_handle_shapes :
+    Gen.QueryLocks.shapes.timer.good = true ∧ Gen.QueryLocks.shapes.handle.asModelled = true := by decide
 
 theorem inv_foldl (sh : Shapes) (hg : sh.good = true) (sched : List Action) :
     ∀ s, QueryRoute.Inv s → QueryRoute.Inv (sched.foldl (act sh) s) := by
@@ -67,10 +75,11 @@ theorem C07_routing (sh : Shapes) (hg : sh.good = true) (sched : List Action) :
     cases q.closed <;> simp
 
 /-- The timer closure closes its query and deregisters its Lamport time, whatever else is going on. -/
-theorem C07_timeout_closes (sh : Shapes) (s : Sys) (i : Nat) (q : QR) (hq : s.objs[i]? = some q) :
+theorem C07_timeout_closes (sh : Shapes) (hg : sh.good = true) (s : Sys) (i : Nat) (q : QR)
+    (hq : s.objs[i]? = some q) :
     ∃ q', (act sh s (.timeout i)).objs[i]? = some q' ∧ q'.closed = true ∧ q'.timedOut = true ∧
       alookup (act sh s (.timeout i)).map q.lt = none := by
-  simp only [act, hq]
+  simp only [act, hq, timerUncond_of_good hg, Bool.true_or, if_true]
   refine ⟨{ close s.now q with timedOut := true }, by rw [getElem?_modAt]; simp [hq], ?_, rfl,
     alookup_aerase_self _ _⟩
   show (close s.now q).closed = true
@@ -98,7 +107,7 @@ theorem C07_closed_is_final (sh : Shapes) (hg : sh.good = true) (s : Sys) (a : A
     cases hj' : s.objs[j]? with
     | none => exact ⟨q, hq, rfl, rfl, hc, rfl⟩
     | some q0 =>
-      simp only; rw [getElem?_modAt]
+      simp only [timerUncond_of_good hg, Bool.true_or, if_true]; rw [getElem?_modAt]
       by_cases hj : i = j
       · subst hj
         simp only [if_true, hq, Option.map_some]
@@ -106,6 +115,9 @@ theorem C07_closed_is_final (sh : Shapes) (hg : sh.good = true) (s : Sys) (a : A
         unfold QueryRoute.close
         simp [hc]
       · simp [hj, hq, hc]
+  | query id ack cap =>
+    exact ⟨q, by simp only [act]; rw [List.getElem?_append_left hi]; exact hq, rfl, rfl, hc, rfl⟩
+  | witness t => exact ⟨q, hq, rfl, rfl, hc, rfl⟩
   | arrive r =>
     simp only [act]
     cases s.inflight with
@@ -172,6 +184,76 @@ private def sched1 : List Action :=
 example : ((run Gen.QueryLocks.shapes sched1).objs.map fun q =>
     (q.respLog.map (·.r.sender), q.ackLog.map (·.r.sender), q.closeCount, q.closedAt)) =
     [([], [], 1, some 21), (["b"], ["c"], 1, some 24)] := by decide
+
+/-! ### The timer closure and the Lamport time of `Serf.Query` (regenerated) -/
+
+/-- `Serf.Query` takes its Lamport time as `queryClock.Increment() - 1` and does nothing else with the clock
+(regenerated from serf/serf.go): taking the time and advancing the clock are one atomic step — the
+action `.query` of the model. -/
+theorem C07_query_clock_gen :
+    Gen.ClockUse.query.ltimeSource = "incrementMinus1" ∧ Gen.ClockUse.query.later = [] := by decide
+
+theorem inv2_foldl (sh : Shapes) (hg : sh.good = true) (sched : List Action)
+    (hq : ∀ a ∈ sched, a.isRegister = false) : ∀ s, Inv2 s → Inv2 (sched.foldl (act sh) s) := by
+  induction sched with
+  | nil => intro s h; exact h
+  | cons a as ih =>
+    intro s h
+    exact ih (fun x hx => hq x (List.mem_cons_of_mem _ hx)) _
+      (inv2_act sh hg s a (hq a List.mem_cons_self) h)
+
+/-- **Concurrent `Query` calls sharing the table.** In every schedule whose queries are all issued through
+`Serf.Query` (any number, interleaved in any way with replies, timers, deadlines, `Witness` steps of the
+clock and client reads): the queries have pairwise distinct Lamport times, and every query whose timer has
+not fired is still registered under its own time — no `Query` call overwrites another's table entry and
+no timer removes another query's entry, so no reply is lost that way. -/
+theorem C07_queries_keep_their_entry (sh : Shapes) (hg : sh.good = true) (sched : List Action)
+    (hq : ∀ a ∈ sched, a.isRegister = false) :
+    ((run sh sched).objs.map (·.lt)).Nodup ∧
+    ∀ i q, (run sh sched).objs[i]? = some q → q.timedOut = false → alookup (run sh sched).map q.lt = some i := by
+  have h := inv2_foldl sh hg sched hq {} inv2_init
+  exact ⟨h.nodup, h.own⟩
+
+/-- The hypothesis is needed: two raw registrations under one Lamport time (what two overlapping `Query` calls
+did when the time was read with `Time()` and the clock advanced later) — the second overwrites the entry, the
+first query is no longer reachable, and its timer then removes the second's entry. -/
+theorem C07_shared_time_loses_entry :
+    let s := run Gen.QueryLocks.shapes [.register 7 100 false 2, .register 7 200 false 2]
+    alookup s.map 7 = some 1 ∧
+    alookup (act Gen.QueryLocks.shapes s (.timeout 0)).map 7 = none := by decide
+
+-- non-vacuity: three Query calls, a Witness jump in between, the first timer fires
+example : ((run Gen.QueryLocks.shapes [.query 1 false 2, .witness 9, .query 2 true 2, .query 3 false 2, .timeout 0]).objs.map (·.lt),
+    (run Gen.QueryLocks.shapes [.query 1 false 2, .witness 9, .query 2 true 2, .query 3 false 2, .timeout 0]).map)
+    = ([0, 10, 11], [(10, 1), (11, 2)]) := by decide
+
+/-- **Every query's streams are closed exactly once when it times out, after which nothing is sent** — over
+every schedule, for the timer closure as it is in the source (delete + Close, unconditional): once the
+timer of object `i` has fired, the object is closed, was closed exactly once, every reply on its streams was
+sent strictly before the close, and (`C07_closed_is_final`) its streams never change again. -/
+theorem C07_closed_once_after_timeout (sh : Shapes) (hg : sh.good = true) (sched : List Action) :
+    ∀ q ∈ (run sh sched).objs, q.timedOut = true →
+      q.closed = true ∧ q.closeCount = 1 ∧
+      ∃ c, q.closedAt = some c ∧ ∀ x ∈ q.ackLog ++ q.respLog, x.time < c := by
+  intro q hq ht
+  obtain ⟨_, _, _, _, _, hafter, _, hto, hci, hat, _⟩ := C07_routing sh hg sched q hq
+  have hc : q.closed = true := hci.mpr (hto ht)
+  have hs : q.closedAt.isSome = true := hat.mp hc
+  cases hca : q.closedAt with
+  | none => rw [hca] at hs; cases hs
+  | some c => exact ⟨hc, hto ht, c, rfl, hafter c hca⟩
+
+/-- Regression witness: a "defensive" timer closure that deregisters and closes only if its table entry is
+still present.  Two queries share Lamport time 7; the first timer removes the shared entry and closes its
+own object; the second timer finds no entry and returns: the second query has timed out but its streams
+are never closed. -/
+def conditionalTimer : Shapes :=
+  { Gen.QueryLocks.shapes with timer := { Gen.QueryLocks.shapes.timer with unconditional := false } }
+
+theorem C07_conditional_timer_counterexample :
+    conditionalTimer.good = false ∧
+    ((run conditionalTimer [.register 7 100 false 2, .register 7 200 false 2, .timeout 0, .timeout 1]).objs.map
+      fun q => (q.timedOut, q.closed, q.closeCount)) = [(true, true, 1), (true, false, 0)] := by decide
 
 /-- Regression witness: the shape in which `sendResponse`/`sendAck` test through `Finished()` (its own
 critical section) and lock only afterwards.  `Close()` (the timer closure here) lands between the test and
